@@ -1,23 +1,475 @@
+(* Correspondence vocabulary for C15: one case = one call (or short call sequence) of the exported
+   protocol/header API with what the Go implementation returned.  [judge] is evaluated by
+   vm_compute on the driver's output (harness/cmd/h_c15).
+   corr = 0 iff the models of Model/{Checksum,TcpOptions,HdrIP,HdrTransport,HdrLink}.v give exactly
+   the implementation's output; spec = property monitor written with the specification vocabulary
+   only (rfc1071_sum, item_bytes/apply_*, the bit-level reader of Model/HdrRfc.v, and the
+   list-consuming reference option parsers below). *)
 From Coq Require Import ZArith Bool List.
-From NP Require Import Model.Bytes Model.Checksum.
+From NP Require Import Model.Bytes Model.Checksum Model.TcpOptions Model.HdrIP Model.HdrTransport
+  Model.HdrLink Model.HdrRfc.
 Import ListNotations.
 Open Scope Z_scope.
 
 Inductive case :=
-| CChecksum (buf : list Z) (init r : Z).
+| CChecksum (buf : list Z) (init r : Z)
+| CCombine (a b r : Z)
+| CChunks (chunks : list (list Z)) (init r : Z)
+| CPseudo (proto : Z) (src dst : list Z) (r : Z)
+(* zero the 16-bit field at [off], c = Checksum, store ^c, r2 = Checksum again *)
+| CVerify (pkt : list Z) (off init c r2 : Z)
+(* ParseSynOptions: r = [mss; ws; ts; tsval; tsecr; sackPermitted], [] when it panicked *)
+| CSyn (opts : list Z) (isAck panicked : bool) (r : list Z)
+(* ParseTCPOptions: r = [ts; tsval; tsecr; nblocks; start1; end1; ...] *)
+| COpt (opts : list Z) (panicked : bool) (r : list Z)
+(* a sequence of encoder calls offset += EncodeX(.., buf[offset:]), then both parsers on buf[:offset] *)
+| CItems (items : list (list Z)) (buf out : list Z) (off : Z) (isAck : bool) (synr optr : list Z)
+(* makeSynOptions / makeOptions replayed with the real encoders on a 40-byte pool buffer *)
+| CSynMake (o : list Z) (buf out : list Z) (pad : Z) (isAck : bool) (synr : list Z)
+| COptMake (tsOk : bool) (tsVal tsEcr : Z) (sackp : bool) (blocks buf out : list Z) (pad : Z) (optr : list Z)
+| CPad (options : list Z) (offset : Z) (panicked : bool) (out : list Z) (p : Z)
+(* Encode (or the setter sequence) of header [kind] on a copy of b0 *)
+| CEnc (kind : Z) (b0 : list Z) (fields : list (list Z)) (panicked : bool) (out : list Z)
+(* every accessor of header [kind] on b; one entry per accessor, [-1] = panicked *)
+| CAcc (kind : Z) (b : list Z) (r : list (list Z))
+(* other helpers: r = result list, [-1] = panicked *)
+| CFn (fn : Z) (b : list Z) (args : list Z) (r : list Z).
 
+(* ---------- small tools ---------- *)
 Definition zneq (a b : Z) : Z := if a =? b then 0 else 1.
+Definition b2z (b : bool) : Z := if b then 1 else 0.
+Definition ok (b : bool) : Z := if b then 0 else 1.
+Fixpoint leqb (a b : list Z) : bool :=
+  match a, b with
+  | [], [] => true
+  | x :: a', y :: b' => (x =? y) && leqb a' b'
+  | _, _ => false
+  end.
+Fixpoint lleqb (a b : list (list Z)) : bool :=
+  match a, b with
+  | [], [] => true
+  | x :: a', y :: b' => leqb x y && lleqb a' b'
+  | _, _ => false
+  end.
+Definition sc (l : list (list Z)) (i : nat) : Z := hd 0 (nth i l []).
+Definition ls (l : list (list Z)) (i : nat) : list Z := nth i l [].
+Definition panic : list Z := [-1].
+Definition oz (o : option Z) : list Z := match o with Some v => [v] | None => panic end.
+Definition ol (o : option (list Z)) : list Z := match o with Some v => v | None => panic end.
+Definition ob (o : option bool) : list Z := match o with Some v => [b2z v] | None => panic end.
+Definition u16b (x : Z) : bool := (0 <=? x) && (x <? 65536).
+Definition u32b (x : Z) : bool := (0 <=? x) && (x <? 2^32).
+Definition arg (l : list Z) (i : nat) : Z := nth i l 0.
+
+(* ---------- TCP options ---------- *)
+Definition syn_list (s : synOpts) : list Z :=
+  [sMSS s; sWS s; b2z (sTS s); sTSVal s; sTSEcr s; b2z (sSACKPermitted s)].
+Definition opt_list (s : tcpOpts) : list Z :=
+  [b2z (oTS s); oTSVal s; oTSEcr s; Z.of_nat (length (oSACKBlocks s))] ++
+  flat_map (fun b => [fst b; snd b]) (oSACKBlocks s).
+Definition syn_res (r : res synOpts) : bool * list Z :=
+  match r with Ok s => (false, syn_list s) | _ => (true, []) end.
+Definition opt_res (r : res tcpOpts) : bool * list Z :=
+  match r with Ok s => (false, opt_list s) | _ => (true, []) end.
+Fixpoint pairs (l : list Z) : list (Z * Z) :=
+  match l with a :: b :: t => (a, b) :: pairs t | _ => [] end.
+Definition item_of (l : list Z) : item :=
+  match l with
+  | 1 :: m :: _ => IMSS m
+  | 2 :: w :: _ => IWS w
+  | 3 :: v :: e :: _ => ITS v e
+  | 4 :: _ => ISackPerm
+  | 5 :: t => ISack (pairs t)
+  | _ => INop
+  end.
+Definition wf_itemb (it : item) : bool :=
+  match it with
+  | IMSS m => (1 <=? m) && (m <? 65536)
+  | IWS w => (0 <=? w) && (w <=? 14)
+  | ITS v e => u32b v && u32b e
+  | ISack bl => (1 <=? length bl)%nat && (length bl <=? 4)%nat && forallb (fun b => u32b (fst b) && u32b (snd b)) bl
+  | _ => true
+  end.
+Definition wire (items : list item) : list Z := concat (map item_bytes items).
+
+(* reference parsers: consume the option list kind/length/body, the way RFC 793 3.1 describes it *)
+Definition split_at (n : nat) (l : list Z) : option (list Z * list Z) :=
+  if (n <=? length l)%nat then Some (firstn n l, skipn n l) else None.
+Fixpoint ref_syn (fuel : nat) (l : list Z) (isAck : bool) (s : synOpts) : synOpts :=
+  match fuel with O => s | S f =>
+  match l with
+  | [] => s
+  | k :: t =>
+    if k =? 0 then s else if k =? 1 then ref_syn f t isAck s else
+    match t with
+    | [] => s
+    | len :: t2 =>
+      if len <? 2 then s else
+      match split_at (Z.to_nat (len - 2)) t2 with
+      | None => s
+      | Some (body, rest) =>
+        if k =? 2 then
+          if len =? 4 then
+            if be_int body =? 0 then s
+            else ref_syn f rest isAck (mkSyn (be_int body) (sWS s) (sTS s) (sTSVal s) (sTSEcr s) (sSACKPermitted s))
+          else s
+        else if k =? 3 then
+          if len =? 3 then
+            ref_syn f rest isAck (mkSyn (sMSS s) (Z.min (be_int body) 14) (sTS s) (sTSVal s) (sTSEcr s) (sSACKPermitted s))
+          else s
+        else if k =? 8 then
+          if len =? 10 then
+            ref_syn f rest isAck (mkSyn (sMSS s) (sWS s) true (be_int (firstn 4 body))
+                                        (if isAck then be_int (skipn 4 body) else sTSEcr s) (sSACKPermitted s))
+          else s
+        else if k =? 4 then
+          if len =? 2 then ref_syn f rest isAck (mkSyn (sMSS s) (sWS s) (sTS s) (sTSVal s) (sTSEcr s) true)
+          else s
+        else ref_syn f rest isAck s
+      end
+    end
+  end end.
+Fixpoint blocks_of (fuel : nat) (body : list Z) : list (Z * Z) :=
+  match fuel with O => [] | S f =>
+  match body with
+  | [] => []
+  | _ => (be_int (firstn 4 body), be_int (firstn 4 (skipn 4 body))) :: blocks_of f (skipn 8 body)
+  end end.
+Fixpoint ref_opt (fuel : nat) (l : list Z) (s : tcpOpts) : tcpOpts :=
+  match fuel with O => s | S f =>
+  match l with
+  | [] => s
+  | k :: t =>
+    if k =? 0 then s else if k =? 1 then ref_opt f t s else
+    match t with
+    | [] => s
+    | len :: t2 =>
+      if len <? 2 then s else
+      match split_at (Z.to_nat (len - 2)) t2 with
+      | None => s
+      | Some (body, rest) =>
+        if k =? 8 then
+          if len =? 10 then ref_opt f rest (mkOpts true (be_int (firstn 4 body)) (be_int (skipn 4 body)) (oSACKBlocks s))
+          else s
+        else if k =? 5 then
+          if (len - 2) mod 8 =? 0 then
+            ref_opt f rest (mkOpts (oTS s) (oTSVal s) (oTSEcr s) (blocks_of (length body) body))
+          else s
+        else ref_opt f rest s
+      end
+    end
+  end end.
+
+Definition syn_of_list (o : list Z) : synOpts :=
+  mkSyn (arg o 0) (arg o 1) (0 <? arg o 2) (arg o 3) (arg o 4) (0 <? arg o 5).
+(* what must come back from a SYN built from [o] *)
+Definition syn_back (o : synOpts) (isAck : bool) : list Z :=
+  [sMSS o; sWS o; b2z (sTS o); (if sTS o then sTSVal o else 0);
+   (if sTS o && isAck then sTSEcr o else 0); b2z (sSACKPermitted o)].
+
+(* ---------- fixed headers ---------- *)
+Definition ipv4_of (l : list (list Z)) : ipv4Fields :=
+  mkIPv4 (sc l 0) (sc l 1) (sc l 2) (sc l 3) (sc l 4) (sc l 5) (sc l 6) (sc l 7) (sc l 8) (ls l 9) (ls l 10).
+Definition ipv4_to (f : ipv4Fields) : list (list Z) :=
+  [[ip4IHL f]; [ip4TOS f]; [ip4TotalLength f]; [ip4ID f]; [ip4Flags f]; [ip4FragmentOffset f];
+   [ip4TTL f]; [ip4Protocol f]; [ip4Checksum f]; ip4SrcAddr f; ip4DstAddr f].
+Definition ipv6_of (l : list (list Z)) : ipv6Fields :=
+  mkIPv6 (sc l 0) (sc l 1) (sc l 2) (sc l 3) (sc l 4) (ls l 5) (ls l 6).
+Definition ipv6_to (f : ipv6Fields) : list (list Z) :=
+  [[ip6TrafficClass f]; [ip6FlowLabel f]; [ip6PayloadLength f]; [ip6NextHeader f]; [ip6HopLimit f];
+   ip6SrcAddr f; ip6DstAddr f].
+Definition frag_of (l : list (list Z)) : ipv6FragFields := mkIPv6Frag (sc l 0) (sc l 1) (0 <? sc l 2) (sc l 3).
+Definition frag_to (f : ipv6FragFields) : list (list Z) :=
+  [[fragNextHeader f]; [fragFragmentOffset f]; [b2z (fragM f)]; [fragIdentification f]].
+Definition tcp_of (l : list (list Z)) : tcpFields :=
+  mkTCP (sc l 0) (sc l 1) (sc l 2) (sc l 3) (sc l 4) (sc l 5) (sc l 6) (sc l 7) (sc l 8).
+Definition tcp_to (t : tcpFields) : list (list Z) :=
+  [[tcpSrcPort t]; [tcpDstPort t]; [tcpSeqNum t]; [tcpAckNum t]; [tcpDataOffset t]; [tcpFlags t];
+   [tcpWindowSize t]; [tcpChecksum t]; [tcpUrgentPointer t]].
+Definition udp_of (l : list (list Z)) : udpFields := mkUDP (sc l 0) (sc l 1) (sc l 2) (sc l 3).
+Definition udp_to (u : udpFields) : list (list Z) := [[udpSrcPort u]; [udpDstPort u]; [udpLength u]; [udpChecksum u]].
+Definition icmp_of (l : list (list Z)) : icmpFields := mkICMP (sc l 0) (sc l 1) (sc l 2).
+Definition icmp_to (f : icmpFields) : list (list Z) := [[icmpType f]; [icmpCode f]; [icmpChecksum f]].
+Definition eth_of (l : list (list Z)) : ethFields := mkEth (ls l 0) (ls l 1) (sc l 2).
+Definition eth_to (e : ethFields) : list (list Z) := [ethSrcAddr e; ethDstAddr e; [ethType e]].
+Definition arp_of (l : list (list Z)) : arpFields := mkARP (sc l 0) (ls l 1) (ls l 2) (ls l 3) (ls l 4).
+Definition arp_to (f : arpFields) : list (list Z) := [[arpOp f]; arpSHA f; arpSPA f; arpTHA f; arpTPA f].
+
+(* model: Encode of header [kind] *)
+Definition enc_model (kind : Z) (b0 : list Z) (l : list (list Z)) : option (list Z) :=
+  if kind =? 1 then ipv4_encode b0 (ipv4_of l)
+  else if kind =? 2 then ipv6_encode b0 (ipv6_of l)
+  else if kind =? 3 then ipv6frag_encode b0 (frag_of l)
+  else if kind =? 4 then tcp_encode b0 (tcp_of l)
+  else if kind =? 5 then udp_encode b0 (udp_of l)
+  else if (kind =? 6) || (kind =? 7) then icmp_encode b0 (icmp_of l)
+  else if kind =? 8 then eth_encode b0 (eth_of l)
+  else arp_encode b0 (arp_of l).
+(* fixed header size, well-formedness of the field list, and the fields as the RFC reader sees them *)
+Definition hdr_size (kind : Z) : nat :=
+  if kind =? 1 then 20 else if kind =? 2 then 40 else if kind =? 3 then 8 else if kind =? 4 then 20
+  else if kind =? 5 then 8 else if (kind =? 6) || (kind =? 7) then 4 else if kind =? 8 then 14 else 28.
+Definition enc_wf (kind : Z) (l : list (list Z)) : bool :=
+  if kind =? 1 then wf_ipv4 (ipv4_of l) else if kind =? 2 then wf_ipv6 (ipv6_of l)
+  else if kind =? 3 then wf_ipv6frag (frag_of l) else if kind =? 4 then wf_tcp (tcp_of l)
+  else if kind =? 5 then wf_udp (udp_of l) else if (kind =? 6) || (kind =? 7) then wf_icmp (icmp_of l)
+  else if kind =? 8 then wf_eth (eth_of l) else wf_arp (arp_of l).
+Definition rfc_fields (kind : Z) (b : list Z) : list (list Z) :=
+  if kind =? 1 then ipv4_to (ipv4_rfc791 b) else if kind =? 2 then ipv6_to (ipv6_rfc2460 b)
+  else if kind =? 3 then frag_to (ipv6frag_rfc2460 b) else if kind =? 4 then tcp_to (tcp_rfc793 b)
+  else if kind =? 5 then udp_to (udp_rfc768 b) else if (kind =? 6) || (kind =? 7) then icmp_to (icmp_rfc792 b)
+  else if kind =? 8 then eth_to (eth_rfc894 b) else arp_to (arp_rfc826 b).
+(* constant parts of a header an encoder must produce *)
+Definition rfc_consts (kind : Z) (b : list Z) : bool :=
+  if kind =? 1 then bits b 0 4 =? 4 else if kind =? 2 then bits b 0 4 =? 6
+  else if kind =? 9 then leqb (arp_fixed_rfc826 b) [1; 2048; 6; 4] else true.
+
+(* model: all accessors of header [kind], in the order the driver prints them *)
+Definition acc_model (kind : Z) (b : list Z) : list (list Z) :=
+  if kind =? 1 then
+    [oz (ipv4_headerLength b); oz (ipv4_id b); oz (ipv4_protocol b); oz (ipv4_flags b); oz (ipv4_ttl b);
+     oz (ipv4_fragmentOffset b); oz (ipv4_totalLength b); oz (ipv4_checksum b); ol (ipv4_sourceAddress b);
+     ol (ipv4_destinationAddress b); oz (ipv4_tos b); oz (ipv4_payloadLength b); ol (ipv4_payload b);
+     [ipVersion b]; oz (ipv4_calculateChecksum b)]
+  else if kind =? 2 then
+    [oz (ipv6_payloadLength b); oz (ipv6_hopLimit b); oz (ipv6_nextHeader b); ol (ipv6_sourceAddress b);
+     ol (ipv6_destinationAddress b);
+     match ipv6_tos b with Some (t, l) => [t; l] | None => panic end; ol (ipv6_payload b); [ipVersion b]]
+  else if kind =? 3 then
+    [oz (ipv6frag_nextHeader b); oz (ipv6frag_fragmentOffset b); ob (ipv6frag_more b); oz (ipv6frag_id b);
+     ol (ipv6frag_payload b); [b2z (ipv6frag_isValid b)]]
+  else if kind =? 4 then
+    [oz (tcp_sourcePort b); oz (tcp_destinationPort b); oz (tcp_sequenceNumber b); oz (tcp_ackNumber b);
+     oz (tcp_dataOffset b); oz (tcp_flags b); oz (tcp_windowSize b); oz (tcp_checksum b); ol (tcp_payload b);
+     ol (tcp_options b)]
+  else if kind =? 5 then
+    [oz (udp_sourcePort b); oz (udp_destinationPort b); oz (udp_length b); oz (udp_checksum b); ol (udp_payload b)]
+  else if (kind =? 6) || (kind =? 7) then
+    [oz (icmp_type b); oz (icmp_code b); oz (icmp_checksum b); ol (icmp_payload b)]
+  else if kind =? 8 then
+    [ol (eth_sourceAddress b); ol (eth_destinationAddress b); oz (eth_type b)]
+  else
+    [oz (arp_op b); ol (arp_hardwareAddressSender b); ol (arp_protocolAddressSender b);
+     ol (arp_hardwareAddressTarget b); ol (arp_protocolAddressTarget b); ob (arp_isValid b)].
+
+(* spec: which entries of an accessor result are the header fields, in the order of rfc_fields *)
+Definition acc_fields (kind : Z) (r : list (list Z)) : list (list Z) :=
+  if kind =? 1 then [ls r 0; ls r 10; ls r 6; ls r 1; ls r 3; ls r 5; ls r 4; ls r 2; ls r 7; ls r 8; ls r 9]
+  else if kind =? 2 then [[hd 0 (ls r 5)]; [nth 1 (ls r 5) 0]; ls r 0; ls r 2; ls r 1; ls r 3; ls r 4]
+  else if kind =? 3 then [ls r 0; ls r 1; ls r 2; ls r 3]
+  else if kind =? 4 then [ls r 0; ls r 1; ls r 2; ls r 3; ls r 4; ls r 5; ls r 6; ls r 7]
+  else if kind =? 5 then [ls r 0; ls r 1; ls r 2; ls r 3]
+  else if (kind =? 6) || (kind =? 7) then [ls r 0; ls r 1; ls r 2]
+  else if kind =? 8 then [ls r 0; ls r 1; ls r 2]
+  else [ls r 0; ls r 1; ls r 2; ls r 3; ls r 4].
+(* TCP has no urgent-pointer accessor: compare only the first 8 fields there *)
+Definition acc_rfc (kind : Z) (b : list Z) : list (list Z) :=
+  if kind =? 4 then firstn 8 (rfc_fields kind b) else rfc_fields kind b.
+
+(* ---------- helper functions (CFn) ---------- *)
+Definition fn_model (fn : Z) (b : list Z) (a : list Z) : list Z :=
+  if fn =? 1 then ob (ipv4_isValid b (arg a 0))
+  else if fn =? 2 then ob (ipv6_isValid b (arg a 0))
+  else if fn =? 5 then ol (ipv4_encodePartial b (arg a 0) (arg a 1))
+  else if fn =? 6 then oz (tcp_calculateChecksum b (arg a 0) (arg a 1))
+  else if fn =? 7 then ol (tcp_encodePartial b (arg a 0) (arg a 1) (arg a 2) (arg a 3) (arg a 4) (arg a 5))
+  else if fn =? 8 then oz (udp_calculateChecksum b (arg a 0) (arg a 1))
+  else if fn =? 10 then
+    (* SetChecksum(0); c := CalculateChecksum(); SetChecksum(^c); CalculateChecksum() *)
+    match ipv4_setChecksum b 0 with None => panic | Some b0 =>
+    match ipv4_calculateChecksum b0 with None => panic | Some c =>
+    match ipv4_setChecksum b0 (lnot16 c) with None => panic | Some b1 =>
+    match ipv4_calculateChecksum b1 with None => panic | Some c2 => [c; c2] end end end end
+  else if fn =? 11 then
+    (* UDP: SetChecksum(0); c := CalculateChecksum(p, len); SetChecksum(^c); CalculateChecksum(p, len) *)
+    match udp_setChecksum b 0 with None => panic | Some b0 =>
+    match udp_calculateChecksum b0 (arg a 0) (arg a 1) with None => panic | Some c =>
+    match udp_setChecksum b0 (lnot16 c) with None => panic | Some b1 =>
+    match udp_calculateChecksum b1 (arg a 0) (arg a 1) with None => panic | Some c2 => [c; c2] end end end end
+  else if fn =? 12 then
+    match tcp_setChecksum b 0 with None => panic | Some b0 =>
+    match tcp_calculateChecksum b0 (arg a 0) (arg a 1) with None => panic | Some c =>
+    match tcp_setChecksum b0 (lnot16 c) with None => panic | Some b1 =>
+    match tcp_calculateChecksum b1 (arg a 0) (arg a 1) with None => panic | Some c2 => [c; c2] end end end end
+  else panic.
+
+(* the header bytes a transport checksum covers, from the RFC reader *)
+Definition fn_spec (fn : Z) (b : list Z) (a r : list Z) : Z :=
+  if fn =? 1 then
+    (* RFC 791: valid iff 20 bytes are there, header length <= total length <= packet size *)
+    ok (leqb r [b2z ((20 <=? length b)%nat && (4 * bits b 4 4 <=? bits b 16 16) && (bits b 16 16 <=? arg a 0))])
+  else if fn =? 2 then
+    ok (leqb r [b2z ((40 <=? length b)%nat && (bits b 32 16 <=? arg a 0 - 40))])
+  else if fn =? 5 then
+    if (length b <? 12)%nat then ok (leqb r panic) else
+    ok ((length r =? length b)%nat && (bits r 16 16 =? arg a 1) &&
+        (bits r 80 16 =? lnot16 (ocadd (arg a 0) (arg a 1))) &&
+        leqb (firstn 2 r) (firstn 2 b) && leqb (firstn 6 (skipn 4 r)) (firstn 6 (skipn 4 b)) &&
+        leqb (skipn 12 r) (skipn 12 b))
+  else if fn =? 6 then
+    let d := Z.to_nat (4 * bits b 96 4) in
+    if (length b <? 13)%nat || (length b <? d)%nat then ok (leqb r panic) else
+    ok (leqb r [rfc1071_sum (firstn d b) (ocadd (arg a 0) (arg a 1))])
+  else if fn =? 7 then
+    if (length b <? 18)%nat then ok (leqb r panic) else
+    let c := fold_left ocadd [arg a 1; arg a 4; bits r 32 16; bits r 48 16; bits r 64 16; bits r 80 16; bits r 112 16] (arg a 0) in
+    ok ((length r =? length b)%nat && (bits r 32 32 =? arg a 2) && (bits r 64 32 =? arg a 3) &&
+        (bits r 104 8 =? arg a 4) && (bits r 112 16 =? arg a 5) && (bits r 128 16 =? lnot16 c) &&
+        leqb (firstn 4 r) (firstn 4 b) && (bits r 96 8 =? bits b 96 8) && leqb (skipn 18 r) (skipn 18 b))
+  else if fn =? 8 then
+    if (length b <? 8)%nat then ok (leqb r panic) else
+    ok (leqb r [rfc1071_sum (firstn 8 b) (ocadd (arg a 0) (arg a 1))])
+  else if fn =? 10 then
+    (* "a packet carrying the complemented sum always verifies" *)
+    let hl := Z.to_nat (4 * bits b 4 4) in
+    if (length b <? 12)%nat then ok (leqb r panic)
+    else if (length b <? hl)%nat then ok (leqb r panic)
+    else if (hl <? 12)%nat then 0
+    else ok (nth 1 r 0 =? 65535)
+  else if fn =? 11 then
+    if (length b <? 8)%nat then ok (leqb r panic) else ok (nth 1 r 0 =? 65535)
+  else if fn =? 12 then
+    let d := Z.to_nat (4 * bits b 96 4) in
+    if (length b <? 18)%nat || (length b <? d)%nat then ok (leqb r panic)
+    else if (d <? 18)%nat then 0
+    else ok (nth 1 r 0 =? 65535)
+  else 1.
+
+(* ---------- corr ---------- *)
+Definition emit_model (items : list (list Z)) (buf : list Z) : list Z * nat :=
+  emit_items (map item_of items) (buf, 0%nat).
+
 Definition corr (c : case) : Z :=
   match c with
   | CChecksum buf init r => zneq (checksum buf init) r
+  | CCombine a b r => zneq (checksumCombine a b) r
+  | CChunks chunks init r => zneq (checksum_chunks chunks init) r
+  | CPseudo proto src dst r => zneq (pseudoHeaderChecksum proto src dst) r
+  | CVerify pkt off init c r2 =>
+      match put16 pkt (Z.to_nat off) 0 with
+      | None => 1
+      | Some p0 =>
+        let c' := checksum p0 init in
+        match put16 p0 (Z.to_nat off) (lnot16 c') with
+        | None => 1
+        | Some p1 => ok ((c' =? c) && (checksum p1 init =? r2))
+        end
+      end
+  | CSyn opts isAck panicked r =>
+      let '(p, l) := syn_res (parseSynOptions opts isAck) in ok (Bool.eqb p panicked && leqb l r)
+  | COpt opts panicked r =>
+      let '(p, l) := opt_res (parseTCPOptions opts) in ok (Bool.eqb p panicked && leqb l r)
+  | CItems items buf out off isAck synr optr =>
+      let '(o, n) := emit_model items buf in
+      let bytes := firstn n o in
+      ok (leqb o out && (Z.of_nat n =? off) &&
+          leqb (snd (syn_res (parseSynOptions bytes isAck))) synr &&
+          leqb (snd (opt_res (parseTCPOptions bytes))) optr)
+  | CSynMake o buf out pad isAck synr =>
+      match make_options (syn_program (syn_of_list o)) buf with
+      | None => 1
+      | Some (bytes, p) =>
+        ok (leqb bytes out && (p =? pad) && leqb (snd (syn_res (parseSynOptions bytes isAck))) synr)
+      end
+  | COptMake tsOk tsVal tsEcr sackp blocks buf out pad optr =>
+      match make_options (opt_program tsOk tsVal tsEcr sackp (pairs blocks)) buf with
+      | None => 1
+      | Some (bytes, p) =>
+        ok (leqb bytes out && (p =? pad) && leqb (snd (opt_res (parseTCPOptions bytes))) optr)
+      end
+  | CPad options offset panicked out p =>
+      match addTCPOptionPadding options (Z.to_nat offset) with
+      | None => ok panicked
+      | Some (o, q) => ok (negb panicked && leqb o out && (q =? p))
+      end
+  | CEnc kind b0 fields panicked out =>
+      match enc_model kind b0 fields with
+      | None => ok panicked
+      | Some o => ok (negb panicked && leqb o out)
+      end
+  | CAcc kind b r => ok (lleqb (acc_model kind b) r)
+  | CFn fn b a r => ok (leqb (fn_model fn b a) r)
   end.
+
+(* ---------- spec ---------- *)
+Definition all_even_but_last (chunks : list (list Z)) : bool :=
+  forallb (fun c => Nat.even (length c)) (removelast chunks).
+
 Definition spec (c : case) : Z :=
   match c with
   | CChecksum buf init r => zneq (rfc1071_sum buf init) r
+  | CCombine a b r => zneq (ocadd a b) r
+  | CChunks chunks init r =>
+      if all_even_but_last chunks then zneq (rfc1071_sum (concat chunks) init) r else 0
+  | CPseudo proto src dst r =>
+      if Nat.even (length src) && Nat.even (length dst)
+      then zneq (rfc1071_sum (src ++ dst ++ [0; proto]) 0) r else 0
+  | CVerify pkt off init c r2 => zneq r2 65535
+  | CSyn opts isAck panicked r =>
+      ok (negb panicked && leqb r (syn_list (ref_syn (S (length opts)) opts isAck syn_default)))
+  | COpt opts panicked r =>
+      ok (negb panicked && leqb r (opt_list (ref_opt (S (length opts)) opts opts_default)))
+  | CItems items buf out off isAck synr optr =>
+      let its := map item_of items in
+      if forallb wf_itemb its && (length (wire its) <=? length buf)%nat then
+        (* everything fits: the wire format is written, the rest of the buffer untouched, and both
+           parsers recover the options *)
+        ok (leqb out (wire its ++ skipn (length (wire its)) buf) && (off =? Z.of_nat (length (wire its))) &&
+            leqb synr (syn_list (fold_left (apply_syn isAck) its syn_default)) &&
+            leqb optr (opt_list (fold_left apply_opt its opts_default)))
+      else
+        (* not everything fits: the encoders stay inside the buffer, the parsers do not panic *)
+        ok ((length out =? length buf)%nat && (0 <=? off) && (off <=? Z.of_nat (length buf)) &&
+            leqb (skipn (Z.to_nat off) out) (skipn (Z.to_nat off) buf) &&
+            negb (leqb synr []) && negb (leqb optr []))
+  | CSynMake o buf out pad isAck synr =>
+      ok ((pad =? 0) && (Z.of_nat (length out) mod 4 =? 0) && (length out <=? 40)%nat &&
+          leqb synr (syn_back (syn_of_list o) isAck))
+  | COptMake tsOk tsVal tsEcr sackp blocks buf out pad optr =>
+      let fit := firstn (if tsOk then 3 else 4) (pairs blocks) in
+      ok ((pad =? 0) && (Z.of_nat (length out) mod 4 =? 0) && (length out <=? 40)%nat &&
+          leqb optr (opt_list (mkOpts tsOk (if tsOk then tsVal else 0) (if tsOk then tsEcr else 0)
+                                      (if sackp then fit else []))))
+  | CPad options offset panicked out p =>
+      let off := Z.to_nat offset in
+      let need := (- offset) mod 4 in
+      if (length options <? off + Z.to_nat need)%nat then ok panicked
+      else ok (negb panicked && (p =? need) && ((offset + p) mod 4 =? 0) &&
+               leqb out (firstn off options ++ repeat 1 (Z.to_nat need) ++ skipn (off + Z.to_nat need) options))
+  | CEnc kind b0 fields panicked out =>
+      if (length b0 <? hdr_size kind)%nat then ok panicked
+      else if negb (enc_wf kind fields) then ok (negb panicked)
+      else ok (negb panicked && (length out =? length b0)%nat &&
+               lleqb (rfc_fields kind out) fields && rfc_consts kind out &&
+               leqb (skipn (hdr_size kind) out) (skipn (hdr_size kind) b0))
+  | CAcc kind b r =>
+      if (length b <? hdr_size kind)%nat then 0
+      else ok (lleqb (acc_fields kind r) (acc_rfc kind b))
+  | CFn fn b a r => fn_spec fn b a r
   end.
+
+(* ---------- tag: 0 = trivial ---------- *)
 Definition tag (c : case) : Z :=
   match c with
-  | CChecksum buf init r => match buf with [] => 0 | _ => if Nat.odd (length buf) then 2 else 1 end
+  | CChecksum buf _ _ => match buf with [] => 0 | _ => if Nat.odd (length buf) then 2 else 1 end
+  | CCombine a b _ => if (a =? 0) || (b =? 0) then 0 else if 65536 <=? a + b then 4 else 3
+  | CChunks chunks _ _ => match chunks with [] => 0 | _ => if all_even_but_last chunks then 5 else 6 end
+  | CPseudo _ src _ _ => match src with [] => 0 | _ => 7 end
+  | CVerify _ _ _ _ _ => 8
+  | CSyn opts _ _ r => match opts with [] => 0 | _ => if leqb r (syn_list syn_default) then 9 else 10 end
+  | COpt opts _ r => match opts with [] => 0 | _ => if leqb r (opt_list opts_default) then 11 else 12 end
+  | CItems items buf _ _ _ _ _ =>
+      match items with [] => 0 | _ =>
+        if forallb wf_itemb (map item_of items) && (length (wire (map item_of items)) <=? length buf)%nat
+        then 13 else 14 end
+  | CSynMake _ _ _ _ _ _ => 15
+  | COptMake _ _ _ _ _ _ _ _ _ => 16
+  | CPad _ _ _ _ p => if p =? 0 then 0 else 17
+  | CEnc kind b0 fields panicked _ =>
+      if panicked then 0 else if enc_wf kind fields then 20 + kind else 30 + kind
+  | CAcc kind b r => if (length b <? hdr_size kind)%nat then 0 else 40 + kind
+  | CFn fn _ _ r => if leqb r panic then 0 else 50 + fn
   end.
+
 Definition judge (c : case) : list Z := [corr c; spec c; tag c].
 Definition judge_all (cs : list case) : list Z := flat_map judge cs.
